@@ -33,7 +33,10 @@ claim("C31",
       "Runner side: one structural obligation on the real _ControlLoopRunner.run (AST, replayed by a native scenario): "
       "scheduled ticks - the run's timeout among them - are promoted only on a wake-up in which no task completed, so "
       "a completed result is not overtaken by a timer that came due together with it. The rest (scheduling of the "
-      "timeout tick, cleanup of tasks, interleaving of cancellation with worker completion) is trusted.")
+      "timeout tick, cleanup of tasks, interleaving of cancellation with worker completion) is trusted.",
+      technique="contract-based deductive verification of the reducer (sidecar pre/postconditions and loop invariants on "
+                "the real functions, VCs generated from /repo's source by pyvc, discharged by z3); one ordering contract "
+                "on the runner's main loop decided on the AST of the real method, replayed by a native scenario")
 
 na("C17", "end-to-end client/server/httpx composition under connection faults: no contract on repository code "
           "carries the property (DESIGN.md 6)")
@@ -86,7 +89,10 @@ claim("C04",
       "worker result carrying the StopEvent awaits cleanup_tasks() - cancel every worker task, then wait for all of "
       "them - before its tick is buffered, so a cancelled sibling cannot publish after the terminal event. The rest "
       "(commands after an exit are not executed; stream_published_events stops at the first StopEvent; the main "
-      "loop's scheduling) is trusted.")
+      "loop's scheduling) is trusted.",
+      technique="contract-based deductive verification of the reducer (sidecar pre/postconditions and loop invariants on "
+                "the real functions, VCs generated from /repo's source by pyvc, discharged by z3); one ordering contract "
+                "on the runner's main loop decided on the AST of the real method, replayed by a native scenario")
 
 claim("C08",
       "Both halves are under contract. Tables: validate_catch_error_handlers returns no error IFF the handler set is "
